@@ -263,6 +263,17 @@ ModeHistoriesOK(BufMode(_, _)) ==
        LET hist == <<m1, m2, m3>>
        IN \A i \in 1..3 : \A v \in ModeRange[hist[i]] : Stored(BufMode(SubSeq(hist, 1, i - 1), hist[i]), v) = <<hist[i], v>>
 
+\* ---------------------------------------------------------------- object histories over the IMAGE object
+\* The image handed to tile_image is the caller's: tile_image only reads it, so one Image object can be tiled again and
+\* again - into pyramids of either parity, in any order - and every tiling sees the same rows.  The refuted variant
+\* flips the source in place for bottom-up tiles and never flips it back.
+SourceAfter(par, rows) == rows
+SourceAfterFlipVariant(par, rows) == IF par = "bottomup" THEN [i \in 1..Len(rows) |-> rows[Len(rows) + 1 - i]] ELSE rows
+ImageHistoriesOK(After(_, _)) ==
+    \A p1 \in Parities, p2 \in Parities, p3 \in Parities :
+       LET r0 == <<1, 2, 3>> r1 == After(p1, r0) r2 == After(p2, r1) r3 == After(p3, r2)
+       IN r1 = r0 /\ r2 = r0 /\ r3 = r0
+
 \* ---------------------------------------------------------------- sizes beyond TLC's 32-bit integers
 \* Image sizes of the form 2^k + d (d small) are handled symbolically: a number is kept as
 \*    [t |-> sequence of <<sign, exponent>> with exponent >= 8,  b |-> small integer]  =  SUM sign * 2^exponent + b
